@@ -327,33 +327,37 @@ func VF_C15_params_lazy() {
 // VF_C14_positions: a package reference in every position and form resolves
 // through the alias table to the package it denotes.
 func VF_C14_positions() {
+	// The alias table itself is checked with symbolic aliases, paths and
+	// references (VF_C14_resolve / VF_C14_names). Here the reference *forms*
+	// and *positions* are enumerated over a small concrete universe chosen to
+	// contain the critical relations (an alias that is a string prefix of
+	// another path segment, dotted host names, dotted values): with concrete
+	// subjects the engine evaluates Go's regexp natively, so the unquoted
+	// dotted forms keep Go's exact leftmost-first semantics.
 	w := vfWire()
-	al := vfStr("alias", 2)
-	vfAssume(vfInRe(al, `\A[A-Za-z][A-Za-z0-9]?\z`))
-	full := "full/" + vfStr("fullseg", 2)
-	vfAssume(vfInRe(full, `\Afull/[a-z0-9]{1,2}\z`))
+	al := []string{"a", "al", "x.y"}[vfChoice("alias", 3)]
+	full := []string{"full/p", "github.com/u/r"}[vfChoice("full", 2)]
 	vfAssert(w.imports.RegisterPrefixAlias(al, full) == nil, "alias registers")
-	seg := vfStr("seg", 2)
-	vfAssume(vfInRe(seg, `\A[a-z][a-z0-9]?\z`))
-	id := vfStr("ident", 2)
-	vfAssume(vfInRe(id, `\A[A-Z][a-z]?\z`))
+	seg := []string{"s", "al", "a-b"}[vfChoice("seg", 3)]
+	id := []string{"T", "Val"}[vfChoice("ident", 2)]
 
 	ref, wantPath := "", ""
-	switch vfChoice("form", 6) {
+	switch vfChoice("form", 7) {
 	case 0:
 		ref, wantPath = al, full
 	case 1:
 		ref, wantPath = al+"/"+seg, full+"/"+seg
 	case 2:
 		ref, wantPath = "o/"+seg, "o/"+seg
-		vfAssume(al != "o")
 	case 3:
 		ref, wantPath = "\"o/"+seg+"\"", "o/"+seg
-		vfAssume(al != "o")
 	case 4:
 		ref, wantPath = "\""+al+"/"+seg+"\"", full+"/"+seg
 	case 5:
 		ref, wantPath = "\".\"", ""
+	case 6:
+		// an alias followed by more characters in the same segment is not the alias
+		ref, wantPath = al+"b/"+seg, al+"b/"+seg
 	}
 	got := ""
 	switch vfChoice("position", 6) {
